@@ -28,11 +28,11 @@ def gen_case(rng):
     if rng.random() < 0.06:
         n = rng.choice([513, 520, 1030])   # more records than one growth step of the sequence table
     avg = rng.choice([1, 3, 10, 50, 200, 2000]) if n <= 10 else (rng.choice([1, 5, 30, 100]) if n <= 200 else rng.choice([4, 10]))
-    longform = rng.random() < 0.04
+    longform = rng.random() < 0.06
     if longform:
         # few sequences longer than 2^14 / 2^15 / 2^16 residues
         n = rng.choice([2, 3])
-        avg = rng.choice([17000, 33000, 70000])
+        avg = rng.choice([17000, 33000, 33000, 70000])
     total = max(n, n * avg)
     info = {"premise": premise}
     if premise == 1:
@@ -54,7 +54,7 @@ def gen_case(rng):
         p = rng.choice([0.25, 0.25, 0.26, 0.3, 0.5, 0.75, 1.0]) if rng.random() < 0.8 else rng.uniform(0.25, 1.0)
         rest = 1.0 - p
         w = [rng.random() for _ in range(3)]
-        style = rng.choice(["common", "common", "mixed", "u-heavy", "other-heavy"])
+        style = rng.choice(["common", "common", "mixed", "u-heavy", "other-heavy"]) if not (longform and rng.random() < 0.6) else "common"
         if style == "common":
             w = [1, 0, 0]
         elif style == "u-heavy":
@@ -92,13 +92,16 @@ def gen_case(rng):
             return expect, seqs, info
     # cut into n non-empty sequences
     cuts = sorted(rng.sample(range(1, len(letters)), n - 1)) if len(letters) > n else list(range(1, n))
+    if longform and rng.random() < 0.7:
+        # all sequences long (about equal shares)
+        cuts = [k * len(letters) // n + rng.randint(-500, 500) for k in range(1, n)]
     seqs = ["".join(letters[a:b]) for a, b in zip([0] + cuts, cuts + [len(letters)])]
     seqs = [s for s in seqs if s]
     if len(seqs) < 2:
         seqs = ["".join(letters[:1]), "".join(letters[1:]) or letters[0]]
     if premise == 2 and (longform or rng.random() < 0.08):
         # the arrangement of the letters is not part of the premises: protein-only letters all at the end / all at the start of every sequence
-        arr = rng.choice(["rich_last", "rich_last", "rich_first"])
+        arr = rng.choice(["rich_last", "rich_last", "rich_last", "rich_first"])
         key = (lambda c: c.upper() in PROT_ONLY) if arr == "rich_last" else (lambda c: c.upper() not in PROT_ONLY)
         seqs = ["".join(sorted(s_, key=key)) for s_ in seqs]
         info["arrangement"] = arr
